@@ -38,12 +38,14 @@ def skip_last_(source: Observable[_T], count: int) -> Observable[_T]:
 
         def on_next(value: _T) -> None:
             front = None
+            has_front = False
             with source.lock:
                 q.append(value)
                 if len(q) > count:
                     front = q.pop(0)
+                    has_front = True
 
-            if front is not None:
+            if has_front:
                 observer.on_next(front)
 
         return source.subscribe(
